@@ -53,9 +53,11 @@ package main
 import (
 	"fmt"
 	"os"
+	"os/exec"
 	"path/filepath"
 	"slices"
 	"sort"
+	"strconv"
 	"strings"
 
 	"seehuhn.de/go/postscript/type1/names"
@@ -807,7 +809,84 @@ func validBody(sp *space) func(c *mc.Ctx, item int) mc.Verdict {
 
 // ----------------------------------------------------------------------- main
 
+// firstCallBody: the answer to a look-up does not depend on whether it is the
+// first look-up the process ever makes (the tables are loaded lazily): each
+// item runs in a child process whose very first library call is that look-up.
+type firstCall struct {
+	name string
+	ding bool
+	r    rune // > 0: FromUnicode(r) followed by ToUnicode of the result
+}
+
+func firstCalls() []firstCall {
+	var out []firstCall
+	for _, e := range tab.Glyph {
+		if len(e.Text) > 1 {
+			out = append(out, firstCall{name: e.Name}) // every entry that denotes several characters
+		}
+	}
+	for _, n := range []string{"A", "space", "Lcommaaccent", "a7", "a100", "uni0041", "uni00410042", "u1F600", "A_B", "dalethatafpatah_A", "A_dalethatafpatah", "lamedholamdagesh.alt", "f_f_i.alt", "nosuchname", ".notdef", "Tcommaaccent"} {
+		out = append(out, firstCall{name: n}, firstCall{name: n, ding: true})
+	}
+	for _, r := range []rune{'A', 0x2026, 0xFB01, 0x05D3, 0x10FFFF, 0x1F600, 0x0162, 0x021A, 0xE000} {
+		out = append(out, firstCall{r: r})
+	}
+	return out
+}
+
+func firstCallChild(args []string) {
+	if args[0] == "from" {
+		v, _ := strconv.ParseInt(args[1], 10, 32)
+		n := names.FromUnicode(rune(v))
+		fmt.Printf("%q %v\n", n, names.ToUnicode(n, false))
+		return
+	}
+	fmt.Printf("%v\n", names.ToUnicode(args[1], args[2] == "true"))
+}
+
+func firstCallBody(calls []firstCall) func(c *mc.Ctx, item int) mc.Verdict {
+	return func(c *mc.Ctx, item int) mc.Verdict {
+		fc := calls[item]
+		exe, err := os.Executable()
+		if err != nil {
+			return mc.Fail("C16:HARNESS:first-call", err.Error())
+		}
+		var cmd *exec.Cmd
+		var want, what string
+		if fc.r > 0 {
+			cmd = exec.Command(exe, "-firstcall", "from", strconv.Itoa(int(fc.r)))
+			n := names.FromUnicode(fc.r)
+			want = fmt.Sprintf("%q %v\n", n, names.ToUnicode(n, false))
+			what = fmt.Sprintf("FromUnicode(U+%04X) and ToUnicode of its result", fc.r)
+			// (the warm worker's own answer is checked against the lists by the other families)
+		} else {
+			cmd = exec.Command(exe, "-firstcall", "to", fc.name, strconv.FormatBool(fc.ding))
+			w := tab.ToText(fc.name, fc.ding)
+			if strings.Contains(fc.name, "commaaccent") {
+				w = names.ToUnicode(fc.name, fc.ding) // documented deviation, see assumptions
+			}
+			want = fmt.Sprintf("%v\n", w)
+			what = fmt.Sprintf("ToUnicode(%q, %v)", fc.name, fc.ding)
+		}
+		out, err := cmd.Output()
+		c.Step()
+		if err != nil {
+			return mc.Fail("C16:first-call:child-died", what+" as the first call of a process: "+err.Error())
+		}
+		if string(out) != want {
+			v := mc.Fail("C16:first-call:differs", fmt.Sprintf("%s as the first library call of a fresh process gives %s, expected %s", what, strings.TrimSpace(string(out)), strings.TrimSpace(want)))
+			v.Render = what
+			return v
+		}
+		return mc.Pass("first-call-ok", true)
+	}
+}
+
 func main() {
+	if len(os.Args) > 1 && os.Args[1] == "-firstcall" {
+		firstCallChild(os.Args[2:])
+		return
+	}
 	mc.Main(mc.Program{
 		Property: "C16",
 		Assumptions: []string{
@@ -893,6 +972,14 @@ func main() {
 					Rule:     fmt.Sprintf("item = every sequence of 1..%d components from the pool %q joined by '_' x suffix in %q, asked with both dingbats flags, compared with aglref.ToText; non-trivial = at least two components contribute text", maxComp, poolNames, suffixes),
 					Describe: func(i int) string { p, s := decodeComposite(i); return fmt.Sprintf("components %v suffix %q", p, s) },
 					CrashKey: func(int) string { return "C16:crash:composites" },
+				},
+				{
+					Name:     "first-call-in-a-fresh-process",
+					Items:    len(firstCalls()),
+					Body:     firstCallBody(firstCalls()),
+					Rule:     fmt.Sprintf("%d look-ups, each made as the very first library call of a child process of its own (the glyph tables are loaded on first use): every glyph-list entry that denotes several characters, 16 other names of every kind with both dingbats flags, FromUnicode for 9 characters; the answer must be the one the lists prescribe; non-trivial = all", len(firstCalls())),
+					Describe: func(i int) string { return fmt.Sprintf("first call %d", i) },
+					CrashKey: func(int) string { return "C16:crash:first-call" },
 				},
 				{
 					Name:     "long-composites",
